@@ -104,6 +104,10 @@ def run(pid, tier):
                 ev.append(dict(ev="RetimeSkip", m1=nums(rt["meat1"]), m2=nums(rt["meat2"])))
             else:
                 ev.append(dict(ev="Retime", m1=nums(rt["meat1"]), m2=nums(rt["meat2"]), r=nums(rt["out"])))
+        by_round = {lp["round"]: lp for lp in run_.get("lps", [])}
+        if 1 in by_round and 2 in by_round and by_round[1]["consts"]["add"]["meat"] and by_round[2]["consts"]["add"]["meat"]:
+            # the monthly meat each of the two rounds was really given, whatever produced it
+            ev.append(dict(ev="MeatGiven", m1=nums(by_round[1]["series"]["meat"]), g=nums(by_round[2]["series"]["meat"])))
         for lp in run_.get("lps", []):
             if lp["consts"]["add"]["meat"] and lp["consts"]["store"]:
                 ev.append(dict(ev="Running", round=lp["round"], meat=nums(lp["series"]["meat"]), running=nums(lp["series"]["meat_running"])))
